@@ -43,6 +43,22 @@ def work(ctx, tier):
         for e in common.pick_entries(rng, rig.ENTRIES, 3):
             _one(ctx, sc, e, stats, sample=(k < 2 and ctx.shard == 0 and e.endswith("call")))
         ctx.inc("random_scenarios")
+    # several calls on one policy object and one budget while tokens age out one by one between the calls (fill level = a moving target)
+    for k in range((700 if tier == "quick" else 20000) // ctx.nshards):
+        sc = gen.rand_scenario(rng, max_attempts=(2, 4), p_special=0.0, p_budget=1.0, p_handler=0.15, p_abort=0.05, ncalls=(3, 5), timing=False, p_strategy_objects=0.2)
+        w_ = rng.choice([1.0, 10.0])
+        sc["cfg"]["budget"] = {"max": rng.randint(1, 2), "window": w_, "prefill": 0}
+        sc["cfg"]["max_unknown"] = None
+        sc["cfg"]["per_class"] = {}
+        for c in sc["calls"]:
+            c["gap"] = rng.choice([0.0, gen.G, w_ / 2, w_ - gen.G, w_, w_ + gen.G, w_ * 0.9])
+            c["outcomes"] = [[rng.choice(["exc", "res"]), rng.choice(gen.RETRYABLE[:4]), None] for _ in range(2)] + [["ok"]]
+            c["durations"] = [0.0] * 3
+            c["overshoot"] = [0.0] * 3
+            c["strat_values"] = [rng.choice([0.0, gen.G])] * 3
+        for e in common.pick_entries(rng, rig.ENTRIES, 2):
+            _one(ctx, sc, e, stats)
+        ctx.inc("aging_budget_scenarios")
     nb = (3000 if tier == "quick" else 60000) // ctx.nshards
     for sc in gen.boundary_timing_scenarios(rng, nb):
         for e in common.pick_entries(rng, rig.ENTRIES, 2):
@@ -92,6 +108,7 @@ def conclude(ctx):
     floors["hung_attempt_runs"] = (ctx.cnt["hung_attempt_runs"], 6)
     common.crossing_floors(ctx, floors)
     floors["reconfigured_scenarios"] = (ctx.cnt["reconfigured_scenarios"], 80)
+    floors["aging_budget_scenarios"] = (ctx.cnt["aging_budget_scenarios"], 100)
     return dict(
         rule=(
             "sweep of outcome strings x cap grids + random scenarios (budgets, abort polls, handlers) + deadline-boundary scenarios + systematic "
